@@ -108,7 +108,9 @@ func (s *Server) handleProposeVersions(msg protocol.Message) error {
 			if err == nil && proposedVersionData != nil &&
 				proposedVersionData.Query() {
 				msgQueryReply := NewMsgQueryReply(s.config.ProtocolVersionMap)
-				if err := s.SendMessage(msgQueryReply); err != nil {
+				// Returning an error stops the protocol, so wait for the
+				// reply to be written out first
+				if err := s.SendMessageAndWait(msgQueryReply); err != nil {
 					return err
 				}
 				return errors.New(
@@ -127,7 +129,8 @@ func (s *Server) handleProposeVersions(msg protocol.Message) error {
 	}
 	// Send refusal if there are no matching versions
 	if len(versionIntersect) == 0 {
-		var supportedVersions []uint16
+		// Must not be nil: an empty list has to be encoded as an empty array
+		supportedVersions := make([]uint16, 0, len(s.config.ProtocolVersionMap))
 		for supportedVersion := range s.config.ProtocolVersionMap {
 			supportedVersions = append(supportedVersions, supportedVersion)
 		}
@@ -141,7 +144,7 @@ func (s *Server) handleProposeVersions(msg protocol.Message) error {
 				supportedVersions,
 			},
 		)
-		if err := s.SendMessage(msgRefuse); err != nil {
+		if err := s.SendMessageAndWait(msgRefuse); err != nil {
 			return err
 		}
 		return errors.New("handshake failed: refused due to version mismatch")
@@ -166,7 +169,7 @@ func (s *Server) handleProposeVersions(msg protocol.Message) error {
 				),
 			},
 		)
-		if err := s.SendMessage(msgRefuse); err != nil {
+		if err := s.SendMessageAndWait(msgRefuse); err != nil {
 			return err
 		}
 		return errors.New("handshake failed: refused due to empty version data")
@@ -182,7 +185,7 @@ func (s *Server) handleProposeVersions(msg protocol.Message) error {
 				err.Error(),
 			},
 		)
-		if err := s.SendMessage(msgRefuse); err != nil {
+		if err := s.SendMessageAndWait(msgRefuse); err != nil {
 			return err
 		}
 		return fmt.Errorf(
@@ -200,7 +203,7 @@ func (s *Server) handleProposeVersions(msg protocol.Message) error {
 				),
 			},
 		)
-		if err := s.SendMessage(msgRefuse); err != nil {
+		if err := s.SendMessageAndWait(msgRefuse); err != nil {
 			return err
 		}
 		return errors.New("handshake failed: refused due to empty version map")
@@ -216,7 +219,7 @@ func (s *Server) handleProposeVersions(msg protocol.Message) error {
 				errMsg,
 			},
 		)
-		if err := s.SendMessage(msgRefuse); err != nil {
+		if err := s.SendMessageAndWait(msgRefuse); err != nil {
 			return err
 		}
 		return fmt.Errorf(
